@@ -9,7 +9,7 @@ func (c *syntaxBasicStringTypeValidator) validate(values []interface{}) bool {
 		switch values[index].(type) {
 		case string:
 			foundValue = true
-		case struct{}:
+		case emptyEntityType:
 		default:
 			values[index] = emptyEntity
 		}
